@@ -3,7 +3,7 @@
 From Coq Require Import List NArith ZArith Bool Lia.
 From Verif Require Import Common.GoInt Gen.Sequence GenProofs.SequenceProofs.
 From Verif Require Import Chain.Model Chain.Proofs Chain.ProofsWalk Chain.ProofsSys Chain.ProofsPath Chain.Examples
-  LogDB.Model LogDB.Proofs LogDB.ProofsCanon LogDB.ProofsRows.
+  LogDB.Model LogDB.Proofs LogDB.ProofsCanon LogDB.ProofsRows LogDB.ProofsSync.
 Import ListNotations.
 Open Scope N_scope.
 
@@ -106,6 +106,23 @@ Proof.
   exact (path_exists g gp r W (r_best r) (w_best _ _ _ W)).
 Qed.
 
+(* 6. the startup re-sync (cmd/thor/sync_logdb.go as repaired by 47028d8; model only — the functions live in package
+      main): if the tables are the canonical tables of ANY stored block x (the best block when logs were last written:
+      an ancestor of the current best, a descendant of it, or a block of an abandoned branch), then after sync_logdb
+      they are the canonical tables of the current best block.  Covers all four exits of seekLogDBSyncPosition
+      (empty chain, empty tables, newest row belongs to best, seek walk with HasBlockID's exact-key test — a block
+      whose first log is not in tx 0 is simply not recognised and the walk goes further down). *)
+Theorem sync_reestablishes_canonical g gp tag adm r x st_x st_b db db' :
+  num_of g = 0 -> reachable g gp tag adm r ->
+  is_path r x st_x -> is_path r (r_best r) st_b -> rows_of_path r st_x = Some db ->
+  sync_logdb r db = Some db' ->
+  rows_of_path r st_b = Some db' /\ db_events db' = chain_events r st_b /\ db_transfers db' = chain_transfers r st_b.
+Proof.
+  intros Hg R Px Pb Hdb Hs. pose proof (reachable_wf _ _ _ _ _ Hg R) as W. pose proof (reachable_wf_body _ _ _ _ _ Hg R) as WB.
+  pose proof (sync_reestablishes_lemma g gp r W WB x st_x st_b db Px Pb Hdb db' Hs) as H.
+  split; [exact H|]. exact (rows_of_path_flat r st_b WB (path_desc g gp r W _ _ Pb) db' H).
+Qed.
+
 (* non-vacuity: the example history of Chain/Examples.v (tx 1001 with logs on both siblings at height 2, then a
    reorganisation to the sibling branch) imported through write_logs: the table holds the sibling's rows only, and
    equals the rows of the canonical path; skipping the truncate would have kept the stale row (ins_ev ignores it) *)
@@ -133,6 +150,25 @@ Proof.
   - vm_compute. repeat split. eexists. split; [left; reflexivity|]. split; [reflexivity|]. left. reflexivity.
 Qed.
 
+(* non-vacuity of 6, in the situation of finding F8: the tables are those of block (2,2), best is its child (3,7) which has
+   logs; the seek walk stops at (2,2) (row key (2,0,0) present), position 3 = best: block 3 is written *)
+Definition ex_b3l := mkB (bid 3 7) (bid 2 2) 30 [mkTx 1003 7 2 10 None 52] [ex_rc false].
+Definition ex_r5 := step_or ex_r3 ex_b3l 0 true.
+Example ex_c15_sync :
+  reachable ex_g ex_gp ex_tag (fun _ _ _ => True) ex_r5 /\
+  (exists dbx, rows_of_path ex_r5 [bid 2 2; bid 1 1; ex_g] = Some dbx /\ seek_position ex_r5 dbx = Ok 3 /\
+     sync_logdb ex_r5 dbx = rows_of_path ex_r5 [bid 3 7; bid 2 2; bid 1 1; ex_g] /\
+     option_map (fun d => length (db_events d)) (sync_logdb ex_r5 dbx) = Some 3%nat).
+Proof.
+  split.
+  - apply (reach_add _ _ _ _ ex_r3 ex_b3l 0 true); [| vm_compute; repeat split | exact I | vm_compute; reflexivity].
+    apply (reach_add _ _ _ _ ex_r2 ex_b2' 1 false); [| vm_compute; repeat split | exact I | vm_compute; reflexivity].
+    apply (reach_add _ _ _ _ ex_r1 ex_b2 0 true); [| vm_compute; repeat split | exact I | vm_compute; reflexivity].
+    apply (reach_add _ _ _ _ ex_r0 ex_b1 0 true); [| vm_compute; repeat split | exact I | vm_compute; reflexivity].
+    apply reach_init.
+  - eexists. split; [vm_compute; reflexivity|]. vm_compute. repeat split.
+Qed.
+
 Print Assumptions seq_pack_inj_mono.
 Print Assumptions seq_model_is_translated.
 Print Assumptions filter_is_subsequence_events.
@@ -143,3 +179,4 @@ Print Assumptions logdb_tracks_canonical.
 Print Assumptions canonical_path_exists.
 Print Assumptions logdb_is_canonical_logs.
 Print Assumptions write_block_appends_rows.
+Print Assumptions sync_reestablishes_canonical.
